@@ -184,6 +184,8 @@ end
 structure Inv (F : Nat) (g : Graph V) : Prop where
   /-- the guard: acyclic, fewer than `F` levels -/
   wf : Acyclic F g
+  /-- the guard on processors: every `Process()` pulls all its wired inputs -/
+  readsAll : ReadsAll g
   /-- I1: a node that is not outdated holds the from-scratch value -/
   fresh : ∀ i s, g i = .struct s → Outdated F g i = false → s.cache = Spec F g i
   /-- I2: remembered dependency versions are as many as the dependencies and pointwise `≤` the
@@ -239,14 +241,19 @@ theorem Inv.local {g : Graph V} (hinv : Inv F g) (p : Nat) (n' : Node V)
     (hup : ∀ k, k ≠ p → Reach (g.set p n') k p → Outdated F (g.set p n') k = true)
     (hfresh : ∀ s, n' = .struct s → Outdated F (g.set p n') p = false → s.cache = Spec F (g.set p n') p)
     (hrem : ∀ s rv, n' = .struct s → s.remembered = some rv → s.flag = false →
-      All2 (fun d r => r ≤ ver (g.set p n') d) s.deps rv) :
+      All2 (fun d r => r ≤ ver (g.set p n') d) s.deps rv)
+    (hreads : ∀ s, n' = .struct s → s.reads = fun _ => true) :
     Inv F (g.set p n') := by
   have hmono : ∀ d, ver g d ≤ ver (g.set p n') d := by
     intro d
     by_cases hd : d = p
     · subst hd; exact hver
     · rw [ver_set_ne g n' hd]; exact Nat.le_refl _
-  refine ⟨hwf', ?_, ?_⟩
+  refine ⟨hwf', ?_, ?_, ?_⟩
+  · intro k s hs
+    by_cases hk : k = p
+    · subst hk; rw [Graph.set_same] at hs; exact hreads s hs
+    · rw [Graph.set_ne g n' hk] at hs; exact hinv.readsAll k s hs
   · intro k s hs hod
     by_cases hk : k = p
     · subst hk
@@ -397,7 +404,7 @@ theorem Eval_ok_aux (n : Nat) : ∀ i, rank i = n → ∀ g : Graph V, Ranked ra
     subst hi
     have trivialCase : Outdated F g i = false → EvalOK F g i (g, []) := fun ho =>
       ⟨hinv, Evolves.refl g, ho, fun _ _ => rfl, by simp, by simp, by simp [cnt]⟩
-    rw [Eval_eq g hwf]
+    rw [Eval_eq_all g hwf hinv.readsAll]
     cases hs : g i with
     | param x v => exact trivialCase (Outdated_param hwf hs)
     | struct s =>
@@ -458,6 +465,9 @@ theorem Eval_ok_aux (n : Nat) : ∀ i, rank i = n → ∀ g : Graph V, Ranked ra
             intro d hd
             rw [hverd d hd]
             exact Nat.le_refl _
+          · intro s' hs'
+            cases hs'
+            exact hinv.readsAll i s hs
         refine ⟨hinv', ⟨hstat, ?_, ?_⟩, hfresh', ?_, ?_, ?_, ?_⟩
         · intro k hk
           have hki : k ≠ i := by intro h; subst h; rw [ho] at hk; cases hk
